@@ -12,8 +12,38 @@ Definition EXIT_LOGIC : N := 7.
 
 Inductive fkind := FBool | FInt | FString.
 
-(* strconv.ParseInt(s, 0, 64) restricted to an optional sign and decimal digits (what the checks use) *)
+(* strconv.ParseInt(s, 0, 64) as the flag package calls it for integer flags: optional sign; base prefix 0b / 0o / 0x
+   (any case, only when at least one more character follows), a leading 0 alone means octal; '_' may separate digits
+   (and follow a base prefix) and nothing else; digits must be below the base; the value must fit in int64. *)
 Definition is_digit (c : N) : bool := (48 <=? c) && (c <=? 57).
+Definition lower_c (c : N) : N := if (65 <=? c) && (c <=? 90) then c + 32 else c.
+Definition digit_val (c : N) : option N :=
+  if is_digit c then Some (c - 48)
+  else let l := lower_c c in if (97 <=? l) && (l <=? 122) then Some (l - 97 + 10) else None.
+Definition split_base (ds : list N) : N * list N :=
+  match ds with
+  | 48 :: c :: r =>
+      if Nat.leb 3 (length ds)
+      then (if lower_c c =? 98 then (2, r) else if lower_c c =? 111 then (8, r) else if lower_c c =? 120 then (16, r) else (8, c :: r))
+      else (8, c :: r)
+  | 48 :: r => (8, r)
+  | _ => (10, ds)
+  end.
+(* underscoreOK of strconv: saw = 0 start ('^'), 1 digit (or base prefix), 2 underscore, 3 anything else *)
+Fixpoint under_ok (hex : bool) (saw : N) (s : list N) : bool :=
+  match s with
+  | [] => negb (saw =? 2)
+  | c :: r =>
+      if is_digit c || (hex && (97 <=? lower_c c) && (lower_c c <=? 102)) then under_ok hex 1 r
+      else if c =? 95 then (if saw =? 1 then under_ok hex 2 r else false)
+      else if saw =? 2 then false
+      else under_ok hex 3 r
+  end.
+Definition underscore_ok (ds : list N) : bool :=
+  match ds with
+  | 48 :: c :: r => if (lower_c c =? 98) || (lower_c c =? 111) || (lower_c c =? 120) then under_ok (lower_c c =? 120) 1 r else under_ok false 0 ds
+  | _ => under_ok false 0 ds
+  end.
 Definition parse_int (s : list N) : option Z :=
   let '(neg, ds) := match s with
                     | 45 :: r => (true, r)
@@ -22,10 +52,24 @@ Definition parse_int (s : list N) : option Z :=
                     end in
   match ds with
   | [] => None
-  | _ => if forallb is_digit ds
-         then let v := fold_left (fun acc c => (acc * 10 + Z.of_N (c - 48))%Z) ds 0%Z in
-              if (9223372036854775807 <? v)%Z then None else Some (if neg then (- v)%Z else v)
-         else None
+  | _ =>
+    let '(base, body) := split_base ds in
+    let acc := fold_left (fun (st : option Z) c =>
+                 match st with
+                 | None => None
+                 | Some v => if c =? 95 then Some v
+                             else match digit_val c with
+                                  | Some d => if d <? base then Some (v * Z.of_N base + Z.of_N d)%Z else None
+                                  | None => None
+                                  end
+                 end) body (Some 0%Z) in
+    match acc with
+    | None => None
+    | Some v =>
+        if existsb (fun c => c =? 95) ds && negb (underscore_ok ds) then None
+        else if neg then (if (9223372036854775808 <? v)%Z then None else Some (- v)%Z)
+        else (if (9223372036854775807 <? v)%Z then None else Some v)
+    end
   end.
 
 Definition parse_bool (s : list N) : option bool :=
